@@ -22,8 +22,9 @@ def generate(ctx):
     cases = []
     for i in range(n):
         names = ctx.rng.choice(["plain", "plain", "int", "adv"])
-        spec = falib.rand_fa(ctx.rng, names=names)
         k = i % 5
+        # is_deterministic also on automata edited through add/remove_transition with queries in between
+        spec = falib.rand_fa(ctx.rng, names=names, history_p=0.5 if k == 1 else 0.0)
         if k < 3:
             cases.append({"op": ["is_empty", "is_deterministic", "is_acyclic"][k], "fa": spec})
         elif k == 3 or not falib.finite_language(spec):
